@@ -29,8 +29,36 @@ fn wipe(p: &Path) {
     }
 }
 
+/// Remove sandboxes left behind by workers that were killed (their process is gone).
+fn sweep_stale() {
+    let Ok(rd) = std::fs::read_dir("/tmp") else { return };
+    for e in rd.flatten() {
+        let name = e.file_name();
+        let Some(rest) = name.to_str().and_then(|n| n.strip_prefix("verif-c14-")) else { continue };
+        let Some((pid, _)) = rest.split_once('-') else { continue };
+        let Ok(pid) = pid.parse::<u32>() else { continue };
+        if pid != std::process::id() && !Path::new(&format!("/proc/{pid}")).exists() {
+            let p = e.path();
+            if p.as_os_str().as_bytes().starts_with(PREFIX.as_bytes()) {
+                let _ = std::fs::remove_dir_all(&p);
+            }
+        }
+    }
+}
+
 impl Sandbox {
     pub fn new(worker: u32) -> Sandbox {
+        sweep_stale();
+        // A removal that recurses without end (e.g. by following a symlink cycle) must end in
+        // EMFILE - an ordinary Err the oracle can judge - not in a stack overflow of the
+        // worker: every level of the recursion under test holds one descriptor.
+        unsafe {
+            let mut rl: libc::rlimit = core::mem::zeroed();
+            if libc::getrlimit(libc::RLIMIT_NOFILE, &mut rl) == 0 && rl.rlim_cur > 512 {
+                rl.rlim_cur = 512;
+                libc::setrlimit(libc::RLIMIT_NOFILE, &rl);
+            }
+        }
         // fixed-width so that absolute path lengths (and with them replays) do not depend on
         // the number of digits of the process id
         let base = PathBuf::from(format!("{PREFIX}{:07}-{:02}", std::process::id(), worker));
